@@ -112,6 +112,7 @@ func (e *Engine) Solve(obls []*Obligation, cfg SolveCfg) {
 		if len(base) > 180 {
 			base = base[:180]
 		}
+		o.Hyps = append(o.Hyps, e.umulZeroFacts(o)...)
 		qfh := e.PrepareQF(o)
 		qf := base + ".qf.smt2"
 		os.WriteFile(qf, []byte(e.tb.Script(qfh, nil, true, false)), 0o644)
@@ -270,4 +271,34 @@ func firstLines(s string, n int) string {
 		ls = ls[:n]
 	}
 	return strings.Join(ls, "\n")
+}
+
+
+// umulZeroFacts instantiates, for every ground product term umul(a, s) of the obligation, the schema
+// (a == 0 || s == 0) ==> umul(a, s) == 0, which is true of 64-bit multiplication.
+func (e *Engine) umulZeroFacts(o *Obligation) []*Term {
+	tb := e.tb
+	seen := map[*Term]bool{}
+	var out []*Term
+	zero := tb.BVI(64, 0)
+	var walk func(t *Term)
+	walk = func(t *Term) {
+		if seen[t] {
+			return
+		}
+		seen[t] = true
+		if t.Op == "app" && t.Name == "umul" && !t.hasBV && len(t.Args) == 2 && len(out) < 64 {
+			out = append(out, tb.Implies(tb.Or(tb.Eq(t.Args[0], zero), tb.Eq(t.Args[1], zero)), tb.Eq(t, zero)))
+		}
+		for _, a := range t.Args {
+			walk(a)
+		}
+	}
+	for _, h := range o.Hyps {
+		walk(h)
+	}
+	if o.Goal != nil {
+		walk(o.Goal)
+	}
+	return out
 }
